@@ -12,20 +12,28 @@ REQ = {
  'ExitGrl': 'thisListener.Grl != nil',
 }
 EXTRA = {
+ 'EnterMulDivOperators': ['// C05: the documented operator table - which token text selects which operator of the expression being built', '//@   ensures[C05,C17] optable: !old(thisListener.StopParse) && old(thisListener.Stack.length) > 0 && old(thisListener.Stack.top.value) != nil && typeof(old(thisListener.Stack.top.value)) == typeid(*ast.Expression) ==> (antlr_GetText(ctx) == "*" ==> as(old(thisListener.Stack.top.value), *ast.Expression).Operator == ast.OpMul) && (antlr_GetText(ctx) == "/" ==> as(old(thisListener.Stack.top.value), *ast.Expression).Operator == ast.OpDiv) && (antlr_GetText(ctx) == "%" ==> as(old(thisListener.Stack.top.value), *ast.Expression).Operator == ast.OpMod)'],
+ 'EnterAddMinusOperators': ['// C05: the documented operator table - which token text selects which operator of the expression being built', '//@   ensures[C05,C17] optable: !old(thisListener.StopParse) && old(thisListener.Stack.length) > 0 && old(thisListener.Stack.top.value) != nil && typeof(old(thisListener.Stack.top.value)) == typeid(*ast.Expression) ==> (antlr_GetText(ctx) == "+" ==> as(old(thisListener.Stack.top.value), *ast.Expression).Operator == ast.OpAdd) && (antlr_GetText(ctx) == "-" ==> as(old(thisListener.Stack.top.value), *ast.Expression).Operator == ast.OpSub) && (antlr_GetText(ctx) == "|" ==> as(old(thisListener.Stack.top.value), *ast.Expression).Operator == ast.OpBitOr) && (antlr_GetText(ctx) == "&" ==> as(old(thisListener.Stack.top.value), *ast.Expression).Operator == ast.OpBitAnd)'],
+ 'EnterComparisonOperator': ['// C05: the documented operator table - which token text selects which operator of the expression being built', '//@   ensures[C05,C17] optable: !old(thisListener.StopParse) && old(thisListener.Stack.length) > 0 && old(thisListener.Stack.top.value) != nil && typeof(old(thisListener.Stack.top.value)) == typeid(*ast.Expression) ==> (antlr_GetText(ctx) == "<" ==> as(old(thisListener.Stack.top.value), *ast.Expression).Operator == ast.OpLT) && (antlr_GetText(ctx) == "<=" ==> as(old(thisListener.Stack.top.value), *ast.Expression).Operator == ast.OpLTE) && (antlr_GetText(ctx) == ">" ==> as(old(thisListener.Stack.top.value), *ast.Expression).Operator == ast.OpGT) && (antlr_GetText(ctx) == ">=" ==> as(old(thisListener.Stack.top.value), *ast.Expression).Operator == ast.OpGTE) && (antlr_GetText(ctx) == "==" ==> as(old(thisListener.Stack.top.value), *ast.Expression).Operator == ast.OpEq) && (antlr_GetText(ctx) == "!=" ==> as(old(thisListener.Stack.top.value), *ast.Expression).Operator == ast.OpNEq)'],
+ 'EnterAndLogicOperator': ['//@   ensures[C05,C17] optable: !old(thisListener.StopParse) && old(thisListener.Stack.length) > 0 && old(thisListener.Stack.top.value) != nil && typeof(old(thisListener.Stack.top.value)) == typeid(*ast.Expression) ==> as(old(thisListener.Stack.top.value), *ast.Expression).Operator == ast.OpAnd'],
+ 'EnterOrLogicOperator': ['//@   ensures[C05,C17] optable: !old(thisListener.StopParse) && old(thisListener.Stack.length) > 0 && old(thisListener.Stack.top.value) != nil && typeof(old(thisListener.Stack.top.value)) == typeid(*ast.Expression) ==> as(old(thisListener.Stack.top.value), *ast.Expression).Operator == ast.OpOr'],
  'EnterGrl': ['//@   ensures entered: thisListener.Grl != nil'],
  'ExitGrl': ['//@   invariant@1 inv: LInv(thisListener) && KBInv(thisListener.KnowledgeBase) && RInv(thisListener) && thisListener.Grl == old(thisListener.Grl) && thisListener.Grl != nil',
              '//@   invariant@1 grlkept: forall k string :: has(thisListener.Grl.RuleEntries, k) == old(has(thisListener.Grl.RuleEntries, k)) && thisListener.Grl.RuleEntries[k] == old(thisListener.Grl.RuleEntries[k])',
              '//@   invariant@1 errorskept: errorsKept(thisListener)',
              '//@   invariant@1 sticky: old(thisListener.StopParse) ==> thisListener.StopParse'],
- 'ExitIntegerLiteral': ['//@   ensures[C17,C20] literalerr: !fnok_ParseInt(antlr_GetText(ctx), 0, 64) ==> thisListener.StopParse && len(thisListener.ErrorCallback.Errors) > old(len(thisListener.ErrorCallback.Errors))'],
- 'ExitFloatLiteral': ['//@   ensures[C17,C20] literalerr: !fnok_ParseFloat(antlr_GetText(ctx), 64) ==> thisListener.StopParse && len(thisListener.ErrorCallback.Errors) > old(len(thisListener.ErrorCallback.Errors))'],
+ 'ExitIntegerLiteral': ['//@   ensures[C05,C17] literalkind: fnok_ParseInt(antlr_GetText(ctx), 0, 64) && old(thisListener.Stack.length) > 0 && old(thisListener.Stack.top.value) != nil && typeof(old(thisListener.Stack.top.value)) == typeid(*ast.Constant) ==> as(old(thisListener.Stack.top.value), *ast.Constant).Value.kind == 6',
+   '//@   ensures[C17,C20] literalerr: !fnok_ParseInt(antlr_GetText(ctx), 0, 64) ==> thisListener.StopParse && len(thisListener.ErrorCallback.Errors) > old(len(thisListener.ErrorCallback.Errors))'],
+ 'ExitBooleanLiteral': ['//@   ensures[C05,C17] literalvalue: old(thisListener.Stack.length) > 0 && old(thisListener.Stack.top.value) != nil && typeof(old(thisListener.Stack.top.value)) == typeid(*ast.Constant) && !old(thisListener.StopParse) ==> as(old(thisListener.Stack.top.value), *ast.Constant).Value.kind == 1 && as(old(thisListener.Stack.top.value), *ast.Constant).Value.b == (str_lower(antlr_GetText(ctx)) == "true")'],
+ 'ExitFloatLiteral': ['//@   ensures[C05,C17] literalvalue: fnok_ParseFloat(antlr_GetText(ctx), 64) && old(thisListener.Stack.length) > 0 && old(thisListener.Stack.top.value) != nil && typeof(old(thisListener.Stack.top.value)) == typeid(*ast.Constant) ==> as(old(thisListener.Stack.top.value), *ast.Constant).Value.kind == 14 && as(old(thisListener.Stack.top.value), *ast.Constant).Value.f == fn_ParseFloat_0(antlr_GetText(ctx), 64)',
+   '//@   ensures[C17,C20] literalerr: !fnok_ParseFloat(antlr_GetText(ctx), 64) ==> thisListener.StopParse && len(thisListener.ErrorCallback.Errors) > old(len(thisListener.ErrorCallback.Errors))'],
 }
 out = ['// ---- generated by /verif/gen/gen_listener_contracts.py: listener callbacks (template: no panic, invariant, errors kept) ----']
 for m in re.finditer(r'^func \(thisListener \*GruleV3ParserListener\) (\w+)\((\w+) ([\w\.\*]+)\) \{', src, re.M):
     name, pn, pt = m.groups()
     if name in KEEP: continue
     out.append('//@ func (thisListener *GruleV3ParserListener) %s(%s) ()' % (name, pn))
-    out.append('//@   serves C17 C20')
+    out.append('//@   serves C17 C20' + (' C05' if name in EXTRA and any('C05' in l for l in EXTRA[name]) else ''))
     out.append('//@   opt alloc=1')
     out.append('//@   requires LInv(thisListener) && RInv(thisListener) && %s != nil' % pn)
     if name in REQ:
